@@ -90,6 +90,17 @@ let handle op args =
     (match validate false allow f with
      | Accept -> ["ok"]
      | Reject e -> [err_name e])
+  | "visible" ->
+    (* <n> {<k> {<dep> <public>}*k}*n <subject> <target> *)
+    let st = { toks = args } in
+    let n = count st in
+    let g = times n (fun () ->
+      let k = count st in
+      times k (fun () -> let d = nat_of_int (count st) in let p = p_bool st in (d, p))) in
+    let a = nat_of_int (count st) in
+    let f = nat_of_int (count st) in
+    if st.toks <> [] then failwith "dval: trailing tokens";
+    [tok_of_bool (VisibleModel.visible_b g a f)]
   | _ -> failwith ("dval: unknown op " ^ op)
 
 let () = register "dval" handle
